@@ -171,6 +171,7 @@ func init() {
 		rule("R5-completion-group", ruleCompletionGroup).
 		rule("R5-groups", ruleWhoConstructs(groupOwners)).
 		rule("router-error-stops", ruleRouterErrorStops).
+		rule("R17-tick", ruleTick).
 		rule("sweep-answers", ruleSweepAnswers).
 		rule("R1R2-sql-spec", ruleSQLSpec(kindList("CreatePromiseAndTask", "CreatePromise", "CreateTask", "ReadEnqueueableTasks", "CompleteTasks", "UpdateTask"))).
 		rule("R9-command-provenance", ruleCmdProvenance("CreateTaskCommand", "CreatePromiseAndTaskCommand", "UpdateTaskCommand", "CompleteTasksCommand", "ReadEnqueueableTasksCommand")).
@@ -203,6 +204,7 @@ func init() {
 		rule("schema", ruleSchema(scheduleSchema)).
 		rule("R9-command-provenance", ruleCmdProvenance("CreatePromiseCommand", "UpdateScheduleCommand", "CreateScheduleCommand", "ReadSchedulesCommand", "DeleteScheduleCommand")).
 		rule("R5-creation-group", ruleCreationGroup).
+		rule("R17-tick", ruleTick).
 		rule("R5-groups", ruleWhoConstructs(groupOwners)).
 		rule("R6-object-provenance", ruleObjProvenance("Schedule")).
 		rule("R6-cas", ruleCAS("CreateSchedule", "DeleteSchedule"))
@@ -234,6 +236,7 @@ func init() {
 		rule("R13-grpc-flags", ruleGrpcFlags).
 		rule("R13-http-code", ruleHttpCode).
 		rule("R13-front-end-siblings", ruleFrontEndSiblings).
+		rule("R12-unwrap-nil", ruleUnwrapNil).
 		rule("R10-http-reply-once", ruleHttpReplyOnce)
 }
 
